@@ -7,6 +7,7 @@ mod parsum;
 mod prng;
 mod sc_dens;
 mod sc_gossip;
+mod sc_paramfile;
 mod sc_stream;
 
 use crate::core::*;
@@ -30,6 +31,8 @@ macro_rules! scenarios {
             "gossip" => $m!(sc_gossip::Gossip),
             "joins" => $m!(sc_gossip::Joins),
             "parsum" => $m!(sc_gossip::Parsum),
+            "paramfile" => $m!(sc_paramfile::ParamFile),
+            "paramfile-shim" => $m!(sc_paramfile::ParamFileShim),
             other => {
                 eprintln!("unknown scenario {}", other);
                 std::process::exit(2)
@@ -49,7 +52,11 @@ fn main() {
         usage();
     }
     match args[1].as_str() {
+        "paramchild" => {
+            std::process::exit(sc_paramfile::child_main(&args[2..]));
+        }
         "run" => {
+            silence_library_stdout();
             let mut prop = String::new();
             let mut scenario = String::new();
             let mut tier = Tier::Quick;
@@ -103,6 +110,7 @@ fn main() {
             std::process::exit(if out.violations > 0 { 1 } else { 0 });
         }
         "replay" => {
+            silence_library_stdout();
             let path = PathBuf::from(args.get(2).cloned().unwrap_or_else(|| usage()));
             let text = match std::fs::read_to_string(&path) {
                 Ok(t) => t,
